@@ -221,7 +221,7 @@ class Concretiser:
         if isinstance(ty, TObj):
             cls = ty.cls
             real = getattr(importlib.import_module(cls.module.name), cls.name)
-            o = object.__new__(real)
+            o = real.__new__(real) if issubclass(real, BaseException) else object.__new__(real)
             self.objs[oid] = o
             self.types[oid] = ty
             if oid not in self.blank:
